@@ -368,7 +368,7 @@ pub fn run_case(case: &Value, out: &mut Obs) {
                 }
                 Err(site) => {
                     obj.insert("fail".into(), json!("panic"));
-                    obj.insert("site".into(), json!(site_sig(&site)));
+                    obj.insert("site".into(), json!(crate::e_attr::ascii_site(&site)));
                     obj.insert("status".into(), json!("?"));
                 }
             }
